@@ -1,11 +1,17 @@
 package main
 
+import (
+	"strings"
+
+	"golang.org/x/tools/go/ssa"
+)
+
 func init() {
 	register(&Property{
 		ID:    "C05",
 		Level: "other",
 		Run:   c05,
-		Explanation: "Static decision of the durability PROTOCOL behind crash recovery: for each of the seven functions that publish a file by rename (discovered from every OS.Rename call and compared with the confirmed table) the temp-name, content-complete, fsync, rename, directory-fsync order, the error discipline of each step and 'in-memory state advances only after the directory sync' are decided on every path of the go/ssa control-flow graph; plus publish-before-invalidate in CommitJournal/Drop, ownership of file-system mutations by the injectable OS interface, the partial order of DB.Open / recover / rollbackJournal / CheckpointNoLock, the WAL trim guards of syncWALToLTX, and the divisor guards of the journal reader that Open depends on.",
+		Explanation: "Static decision of the durability PROTOCOL behind crash recovery: for each of the seven functions that publish a file by rename (discovered from every OS.Rename call and compared with the confirmed table) the temp-name, content-complete, fsync, rename, directory-fsync order, the error discipline of each step and 'in-memory state advances only after the directory sync' are decided on every path of the go/ssa control-flow graph; plus publish-before-invalidate in CommitJournal/Drop, ownership of file-system mutations by the injectable OS interface, the partial order of DB.Open / recover / rollbackJournal / CheckpointNoLock, the WAL trim guards of syncWALToLTX, the newest-file selection of maxLTXFile and the divisor guards of the journal reader that Open depends on.",
 		NotDecided: "the outcome of recovery at each individual crash point (file contents, torn writes, kernel fsync semantics) - a runtime exploration that this family cannot perform.",
 		Assumptions: []string{
 			"go/packages + go/ssa (x/tools v0.29.0) represent /repo's source faithfully",
@@ -15,6 +21,144 @@ func init() {
 	})
 }
 
+// syncOf matches os.(*File).Sync on a handle whose rendered origin contains sub.
+func (c *Ctx) fileCall(method, sub string) IM {
+	m := c.P.PlainCalls("os.(*File)." + method)
+	return func(in ssa.Instruction) bool {
+		return m(in) && strings.Contains(c.argR(in, 0), sub)
+	}
+}
+
+// osCall matches OS.<method> calls whose path argument renders exactly as arg.
+func (c *Ctx) osCall(method, arg string) IM {
+	m := c.P.PlainCalls("litefs.OS." + method)
+	return func(in ssa.Instruction) bool {
+		return m(in) && c.argR(in, 2) == arg
+	}
+}
+
 func c05(c *Ctx) {
+	p := c.P
 	c.ltxPublication()
+
+	// ---- C05.before-invalidate ----
+	cj := "litefs.(*DB).CommitJournal"
+	dbSync := c.fileCall("Sync", "litefs.(*DB).DatabasePath(p0)")
+	inval := p.PlainCalls("litefs.(*DB).invalidateJournal")
+	create := p.PlainCalls("litefs.OS.Create")
+	c.BeforeFrom("before-invalidate/CommitJournal/dbsync", cj, create, inval, dbSync, 1,
+		"on the commit path the database file is fsynced before the journal is invalidated",
+		"SQLite treats the journal's disappearance as commit: if the database pages are not durable first, a crash leaves a committed-looking, partially written database")
+	c.BeforeFrom("before-invalidate/CommitJournal/publish", cj, create, inval, p.PlainCalls("litefs.OS.Rename"), 1,
+		"the LTX file is renamed into place before the journal is invalidated",
+		"a crash between invalidation and publication loses a transaction SQLite considers committed; recovery would also have no journal to roll back")
+	ij := "litefs.(*DB).invalidateJournal"
+	c.Before("before-invalidate/invalidateJournal/dirsync", ij, p.SuccessReturn, p.CallWhere("internal.Sync", `^internal\.Sync\(p0\.path\)$`), 1,
+		"every success exit of invalidateJournal has fsynced the database directory",
+		"the unlink/truncate of the journal must be durable before the commit is acknowledged, else a hot journal reappears after a crash and rolls back an acknowledged transaction")
+	c.After("before-invalidate/invalidateJournal/truncate-sync", ij, p.PlainCalls("litefs.OS.Truncate"), p.CallWhere("internal.Sync", `JournalPath`), nil, 1,
+		"TRUNCATE mode: the journal is fsynced after being truncated", "a zero-length journal that is not durable is a hot journal after a crash")
+	c.After("before-invalidate/invalidateJournal/persist-sync", ij, p.PlainCalls("os.(*File).Write"), c.fileCall("Sync", "JournalPath"), nil, 1,
+		"PERSIST mode: the zeroed journal header is fsynced", "an un-synced zeroed header leaves a valid hot journal after a crash")
+	c.Before("before-invalidate/invalidateJournal/dirty-reset", ij, p.SuccessReturn, p.Writes("litefs.DB.dirtyPageSet"), 1,
+		"every success exit of invalidateJournal resets the dirty page set", "stale dirty pages leak into the next transaction file")
+
+	// ---- C05.os-iface ----
+	rawOS := p.Calls("os.Create", "os.OpenFile", "os.Remove", "os.RemoveAll", "os.Rename", "os.Truncate", "os.WriteFile", "os.Mkdir", "os.MkdirAll", "os.Link", "os.Symlink")
+	c.OnlyInScope("os-iface/raw-os-mutation", []string{"litefs", "internal"}, rawOS,
+		[]string{`litefs\.\(\*FileBackupClient\)\..*`, `internal\.\(\*SystemOS\)\..*`}, 12,
+		"in packages litefs and internal, direct os.* mutations occur only in FileBackupClient (backup directory) and the SystemOS shim",
+		"crash points are defined on the injectable OS interface; a mutation that bypasses it is neither observable nor ordered by the protocol")
+
+	// ---- C05.open-seq ----
+	op := "litefs.(*DB).Open"
+	call := func(n string) IM { return p.PlainCalls("litefs.(*DB)." + n) }
+	noLTX := GP(`("" == litefs.(*DB).maxLTXFile(p0, @@)#0)`, true)
+	c.Before("open-seq/header-before-recover", op, call("recover"), call("initFromDatabaseHeader"), 1,
+		"initFromDatabaseHeader precedes recover", "rollback and checkpoint need the page size read from the header")
+	c.BeforeG("open-seq/waltrim-before-recover", op, call("recover"), call("syncWALToLTX"), gs(noLTX), 1,
+		"unless no LTX file exists, the WAL is cut back to the newest LTX file before recover checkpoints it", "frames past the newest LTX file would be checkpointed into the database although no transaction file describes them")
+	c.NoPath("open-seq/no-waltrim-after-recover", op, call("recover"), call("syncWALToLTX"), 1, "syncWALToLTX never runs after recover", "trimming after the checkpoint is too late")
+	c.Expect("open-seq/waltrim-arg", strings.Join(c.CallArgs(op, call("syncWALToLTX"), 2), ";"), pat("litefs.(*DB).maxLTXFile(p0, @@)#0"),
+		"syncWALToLTX is given the newest LTX file", "trimming against an older file cuts committed transactions")
+	c.Before("open-seq/shm-removed-before-recover", op, call("recover"), c.osCall("Remove", "litefs.(*DB).SHMPath(p0)"), 1,
+		"the SHM file is removed before recover", "a stale wal-index would let SQLite read frames LiteFS has checkpointed away")
+	c.Before("open-seq/recover-before-checksums", op, call("initDatabaseFile"), call("recover"), 1,
+		"recover precedes initDatabaseFile", "page checksums must describe the rolled-back, checkpointed file")
+	c.Before("open-seq/checksums-before-apply", op, call("ApplyLTXNoLock"), call("initDatabaseFile"), 1,
+		"initDatabaseFile precedes the re-apply of the newest LTX", "the re-apply verifies the post-apply checksum against the page checksums")
+	c.Before("open-seq/lock-before-apply", op, call("ApplyLTXNoLock"), call("AcquireWriteLock"), 1,
+		"AcquireWriteLock precedes ApplyLTXNoLock", "ApplyLTXNoLock requires the caller to hold the write lock set")
+	c.BeforeG("open-seq/newest-ltx-reapplied", op, p.SuccessReturn, call("ApplyLTXNoLock"), gs(noLTX), 1,
+		"unless no LTX file exists, every success exit of Open has re-applied the newest LTX file", "a crash between LTX publication and journal/WAL commit is healed only by this re-apply; without it position and image disagree")
+	c.Expect("open-seq/apply-args", strings.Join(c.CallArgs(op, call("ApplyLTXNoLock"), 1), ";")+" / "+strings.Join(c.CallArgs(op, call("ApplyLTXNoLock"), 2), ";"),
+		pat("litefs.(*DB).maxLTXFile(p0, @@)#0 / false"), "the file re-applied is the newest LTX file, non-fatally", "a fatal apply at open would turn a recoverable state into a crash loop")
+	c.ErrHandled("open-seq/errors", op, p.PlainCalls("litefs.(*DB).initFromDatabaseHeader", "litefs.(*DB).maxLTXFile", "litefs.(*DB).syncWALToLTX", "litefs.(*DB).recover", "litefs.(*DB).initDatabaseFile", "litefs.(*DB).AcquireWriteLock", "litefs.(*DB).ApplyLTXNoLock", "litefs.OS.MkdirAll", "litefs.OS.Remove"), nil, 9,
+		"every step of Open propagates its error", "a failed recovery step that is ignored opens a database whose image does not match its position")
+	rc := "litefs.(*DB).recover"
+	c.Before("open-seq/rollback-before-checkpoint", rc, call("CheckpointNoLock"), call("rollbackJournal"), 1,
+		"recover rolls the journal back before checkpointing the WAL", "see litefs issue 134: a partial transaction would be checkpointed/applied and then rolled back by SQLite")
+	c.Before("open-seq/recover-does-both", rc, p.SuccessReturn, call("CheckpointNoLock"), 1, "every success exit of recover has checkpointed", "an un-checkpointed WAL is left for SQLite to replay differently")
+	c.ErrHandled("open-seq/recover-errors", rc, p.PlainCalls("litefs.(*DB).rollbackJournal", "litefs.(*DB).CheckpointNoLock"), nil, 2, "recover propagates both errors", "a failed rollback must stop recovery")
+
+	// ---- C05.rollback ----
+	rb := "litefs.(*DB).rollbackJournal"
+	trunc := call("truncateDatabase")
+	seg := call("rollbackJournalSegment")
+	rmJournal := c.osCall("Remove", "litefs.(*DB).JournalPath(p0)")
+	c.Guarded("rollback/truncate-valid-only", rb, trunc, gs(GP("litefs.(*JournalReader).IsValid(@@)", true)), 1,
+		"the database is resized only when a valid journal header was read", "resizing to a zero/garbage size destroys the database")
+	c.ExpectAll("rollback/truncate-size", c.CallArgs(rb, trunc, 2), pat("litefs.NewJournalReader(@@).commit"), 1, "the size restored is the journal header's initial database size", "C17: rollback restores exactly the pre-transaction size")
+	c.NoPath("rollback/no-copy-after-truncate", rb, trunc, seg, 1, "no journal page is copied back after the resize", "pages beyond the restored size would be re-extended")
+	c.Before("rollback/sync-before-unlink", rb, rmJournal, c.fileCall("Sync", "DatabasePath"), 1,
+		"the database file is fsynced before the journal is removed", "removing the journal commits the rollback; the restored pages must be durable first")
+	c.NoPath("rollback/no-write-after-unlink", rb, rmJournal, Any(seg, trunc), 1, "nothing is written to the database after the journal is removed", "a crash would leave a half-restored database without a journal")
+	c.BeforeG("rollback/journal-removed", rb, p.SuccessReturn, rmJournal, gs(GP("os.IsNotExist(litefs.OS.OpenFile(p0.os, @@JournalPath@@)#1)", true)), 1,
+		"unless no journal exists, every success exit has removed the journal", "a hot journal left behind is replayed by SQLite against a database LiteFS has already moved on")
+	c.Before("rollback/invalidate-after-unlink", rb, p.PlainCalls("litefs.Invalidator.InvalidateEntry"), rmJournal, 1, "the kernel entry cache is invalidated after the unlink", "invalidate-then-unlink lets the kernel re-cache the entry")
+	c.ErrHandled("rollback/errors", rb, p.PlainCalls("litefs.(*JournalReader).Next", "litefs.(*DB).rollbackJournalSegment", "litefs.(*DB).truncateDatabase", "os.(*File).Sync", "os.(*File).Close", "litefs.OS.Remove", "litefs.OS.OpenFile"), nil, 8,
+		"every step of rollbackJournal propagates its error", "a failed page restore followed by journal removal corrupts the database")
+	c.ExpectAll("rollback/segment-invalidate", c.CallArgs("litefs.(*DB).rollbackJournalSegment", call("writeDatabasePage"), 4), "true", 1, "rolled-back pages invalidate the kernel page cache", "stale cached pages of the aborted transaction stay visible")
+
+	// ---- C05.checkpoint ----
+	ck := "litefs.(*DB).CheckpointNoLock"
+	twal := call("TruncateWAL")
+	c.NoPath("checkpoint/no-copy-after-waltruncate", ck, twal, Any(call("writeDatabasePage"), trunc), 1,
+		"no page copy or resize after the WAL is truncated", "the WAL is the only copy of the pages until they are in the database file")
+	c.BeforeG("checkpoint/resize-before-waltruncate", ck, twal, trunc, gs(GP("(0 < builtin.len(litefs.(*DB).readWALPageOffsets(@@)#0))", false)), 1,
+		"when pages were copied, truncateDatabase(commit) (which fsyncs) precedes TruncateWAL", "truncating the WAL before the copied pages are durable loses committed transactions on a crash")
+	c.ExpectAll("checkpoint/resize-size", c.CallArgs(ck, trunc, 2), pat("litefs.(*DB).readWALPageOffsets(@@)#1"), 1, "the database is resized to the last commit frame's size", "size from the commit frame (C03/C17)")
+	c.After("checkpoint/shm-rewritten", ck, twal, call("updateSHM"), nil, 1, "after the WAL is truncated every success exit rewrites the SHM header", "SQLite readers would index frames that no longer exist")
+	c.After("checkpoint/walchksums-reset", ck, twal, p.Writes("litefs.DB.wal.chksums"), nil, 1, "after the WAL is truncated the WAL page-checksum overlay is cleared", "C04: checksums of frames that no longer exist would override the database's")
+	c.ExpectAll("checkpoint/truncate-arg", c.CallArgs(ck, twal, 2), "0", 1, "the WAL is truncated to zero", "")
+	c.ErrHandled("checkpoint/errors", ck, p.PlainCalls("litefs.(*DB).readWALPageOffsets", "litefs.(*DB).writeDatabasePage", "litefs.(*DB).truncateDatabase", "litefs.(*DB).TruncateWAL", "litefs.(*DB).updateSHM", "io.ReadFull", "os.(*File).Seek"), nil, 7,
+		"every step of CheckpointNoLock propagates its error", "a failed page copy followed by WAL truncation loses the page")
+	td := "litefs.(*DB).truncateDatabase"
+	c.After("checkpoint/truncate-syncs", td, p.PlainCalls("os.(*File).Truncate"), p.PlainCalls("os.(*File).Sync"), nil, 1,
+		"truncateDatabase fsyncs the file after resizing it on every success exit", "wrapper summary used above: 'truncateDatabase syncs'")
+	c.ExpectAll("checkpoint/page-invalidate", c.CallArgs(ck, call("writeDatabasePage"), 4), "true", 1, "checkpointed pages invalidate the kernel page cache", "C01: replicas read stale pages")
+
+	// ---- C05.wal-trim ----
+	sw := "litefs.(*DB).syncWALToLTX"
+	wtrunc := p.PlainCalls("os.(*File).Truncate")
+	hdr := "ltx.(*Decoder).Header(ltx.NewDecoder(litefs.OS.Open(p0.os, @@, p2)#0))"
+	c.Guarded("wal-trim/truncate-salt1", sw, wtrunc, gs(GP("(encoding/binary.(bigEndian).Uint32(@@[16:]) == "+hdr+".WALSalt1)", true)), 1, "the WAL is cut only when salt-1 matches the LTX header", "cutting a restarted WAL at an old offset destroys newer frames")
+	c.Guarded("wal-trim/truncate-salt2", sw, wtrunc, gs(GP("(encoding/binary.(bigEndian).Uint32(@@[20:]) == "+hdr+".WALSalt2)", true)), 1, "the WAL is cut only when salt-2 matches the LTX header", "")
+	c.Guarded("wal-trim/truncate-longer", sw, wtrunc, gs(GP("(("+hdr+".WALOffset + "+hdr+".WALSize) < os.FileInfo.Size(@@))", true)), 1, "the WAL is cut only when it is longer than offset+size of the newest LTX", "never extend the WAL")
+	c.ExpectAll("wal-trim/truncate-size", c.CallArgs(sw, wtrunc, 1), pat("("+hdr+".WALOffset + "+hdr+".WALSize)"), 1, "the WAL is cut to WALOffset+WALSize of the newest LTX file", "frames of the last published transaction must survive; later ones must not")
+	c.Before("wal-trim/verify-first", sw, p.PlainCalls("ltx.(*Decoder).Header"), p.PlainCalls("ltx.(*Decoder).Verify"), 3, "the LTX file is verified before its header fields are used", "a torn newest LTX file must fail Open rather than steer the WAL cut")
+	c.Guarded("wal-trim/rename-aside-on-mismatch", sw, p.PlainCalls("litefs.OS.Rename"),
+		gs(GP("(encoding/binary.(bigEndian).Uint32(@@[16:]) == "+hdr+".WALSalt1)", false), GP("(encoding/binary.(bigEndian).Uint32(@@[20:]) == "+hdr+".WALSalt2)", false)), 1,
+		"the WAL is renamed aside only on a salt mismatch", "a matching WAL holds the frames of the newest transaction")
+	c.ErrHandled("wal-trim/errors", sw, p.PlainCalls("ltx.(*Decoder).Verify", "os.(*File).Truncate", "litefs.OS.Rename", "os.(*File).Stat"), nil, 4, "errors of verify/truncate/rename/stat are propagated", "")
+
+	// ---- C05.maxltx ----
+	ml := "litefs.(*DB).maxLTXFile"
+	pf := "ltx.ParseFilename(os.DirEntry.Name(@@))"
+	c.Guarded("maxltx/skip-unparsable", ml, p.PlainCalls("path/filepath.Join"), gs(GP("("+pf+"#2 == nil)", true)), 1,
+		"a directory entry becomes the candidate only if ltx.ParseFilename accepts its name (so *.tmp files are ignored)", "a temp file mistaken for the newest transaction is re-applied at open")
+	c.Guarded("maxltx/keep-maximum", ml, p.PlainCalls("path/filepath.Join"), gs(GP("(phi(0|"+pf+"#1) < "+pf+"#1)", true)), 1,
+		"the candidate replaces the current one only when its max TXID is larger", "Open must re-apply the NEWEST file")
+
+	c.divGuards("div")
 }
